@@ -11,5 +11,5 @@ NEXT Next
 VIEW StateView
 CONSTRAINT PendingBound
 INVARIANTS CacheSound CacheBounded
-PROPERTIES SameAsDirect FaultIsError LegacyUnchanged AckAfterStore CacheFromStore StoreMonotone ServableStays RestartIsCold
+PROPERTIES SameAsDirect FaultIsError RangeWhole LegacyUnchanged AckAfterStore CacheFromStore StoreMonotone ServableStays RestartIsCold
 CHECK_DEADLOCK FALSE
